@@ -196,7 +196,7 @@ pub fn replay_case(case: &J) -> String {
     .env("RUST_BACKTRACE", "0")
     .output();
   match out {
-    Ok(o) if o.status.success() => format!("PASS scenario {} holds: {}", plan, String::from_utf8_lossy(&o.stdout).lines().filter(|l| !l.starts_with("ALONE")).collect::<Vec<_>>().join(", ")),
+    Ok(o) if o.status.success() => format!("PASS scenario {} holds: {}", plan, String::from_utf8_lossy(&o.stdout).lines().filter(|l| !l.starts_with("ALONE") && !l.starts_with("ELAPSED")).collect::<Vec<_>>().join(", ")),
     Ok(o) => {
       let (class, detail) = classify(&String::from_utf8_lossy(&o.stderr));
       format!("FAIL scenario {}: {} {}", plan, class, detail)
